@@ -12,13 +12,13 @@ from .common import vloop
 from .common.c20_drain import (check_drain, replay_drain, THEOREMS_DRAIN, RULE_DRAIN, generate_constants)
 
 PROPERTY = "C20"
-LEAN_MODULES = ["AioProps.C20"]
+LEAN_MODULES = ["AioProps.C20", "AioProps.C20Drain"]
 THEOREMS_LIFE = [
     "Aio.C20.context_startup_cleanup",
     "Aio.C20.cleanup_only_started_at_most_once",
     "Aio.C20.cleanup_iff_started_runner_single",
     "Aio.C20.cleanup_iff_started_run_app_single_partial",
-    "Aio.C20.cleanup_iff_started_tree_partial",
+    "Aio.C20.run_app_eq_runner_when_startup_succeeds",
     "Aio.C20.f16_run_app_setup_outside_try",
     "Aio.C20.run_app_failed_startup_never_cleans",
     "Aio.C20.subapp_contexts_skipped_after_failed_startup",
@@ -26,7 +26,7 @@ THEOREMS_LIFE = [
     "Aio.C20.shutdown_handler_error_skips_all_cleanup",
     "Aio.C20.parent_exits_before_subapp",
 ]
-THEOREMS = []  # TODO THEOREMS_LIFE + THEOREMS_DRAIN
+THEOREMS = THEOREMS_LIFE + THEOREMS_DRAIN
 RULE = ("(a) lifecycle: application trees (root + up to 4 sub-applications, nesting <= 2) with 0-4 cleanup contexts per "
         "application (async-generator, @asynccontextmanager and class based), user handlers on on_startup/on_shutdown/"
         "on_cleanup registered before/after add_subapp; every callback is ok | raises Exception | raises CancelledError; "
